@@ -556,7 +556,26 @@ fn main() {
                     let mac = &wire[mac_at..mac_at + cut];
                     let oid = u16::from_be_bytes([req[0], req[1]]);
                     let v = add_rr(&req, &rfc_tsig_rr(&kc, t, fudge, mac, oid, 0, &[]));
-                    muts.push(("mac_truncated_below_min", v, Some("BADTRUNC")));
+                    // RFC 8945 5.2.2.1: below max(10, half the digest) is FORMERR; 5.2.4: permitted
+                    // truncation that is too short for the local policy is BADTRUNC
+                    let floor = std::cmp::max(10, kc.alg.native() / 2);
+                    if cut >= floor { muts.push(("mac_truncated_below_min", v, Some("BADTRUNC"))); }
+                    else { muts.push(("mac_below_rfc_floor", v, Some("size:FORMERR"))); }
+                }
+            }
+            { // the correct MAC with octets appended
+                let mut d = req.clone(); d.extend_from_slice(&rfc_variables(&kc, t, fudge, 0, &[]));
+                let full = kc.alg.hmac(x.c, &kc.secret, &d);
+                let oid = u16::from_be_bytes([req[0], req[1]]);
+                // (a) MAC size > digest length: RFC 8945 5.2.2.1 FORMERR
+                let nx = 1 + r.below(4) as usize; let mut m = full.clone(); m.extend_from_slice(&r.bytes(nx));
+                muts.push(("mac_extended_beyond_digest", add_rr(&req, &rfc_tsig_rr(&kc, t, fudge, &m, oid, 0, &[])), Some("size:FORMERR")));
+                // (b) a truncated MAC followed by wrong octets, still within the digest length
+                if kc.sign_len() < kc.alg.native() {
+                    let mut m = full[..kc.sign_len()].to_vec();
+                    let extra = 1 + r.below((kc.alg.native() - kc.sign_len()) as u64) as usize;
+                    for i in 0..extra { m.push(full[kc.sign_len() + i] ^ 0x5a); }
+                    muts.push(("mac_extended_wrong_tail", add_rr(&req, &rfc_tsig_rr(&kc, t, fudge, &m, oid, 0, &[])), Some("BADSIG")));
                 }
             }
             { // class / ttl of the TSIG RR (RFC 8945 4.2: ANY / 0, both part of the digested variables)
@@ -592,7 +611,9 @@ fn main() {
                 if let Some(wantw) = want {
                     if wantw == "reject" || accepted { continue; }
                     let got = match &res { Srv::None => "None".to_string(), Srv::Err(wd) => wd.clone(), Srv::BadTime(_) => "BADTIME".into(), _ => "?".into() };
-                    if wantw == "BADSIG" && got == "FORMERR" {
+                    if let Some(sz) = wantw.strip_prefix("size:") {
+                        x.out.check_c(got == sz, "mac_size_outside_rfc_range_wrong_error", &case, &format!("{}: RFC 8945 5.2.2.1 assigns {} to a MAC size above the digest length or below max(10, half of it), got {}", kind, sz, got));
+                    } else if wantw == "BADSIG" && got == "FORMERR" {
                         x.out.check_c(false, "server_badsig_reported_as_formerr", &case, &format!("{}: MAC does not verify, RFC 8945 5.2.3 assigns BADSIG, got FORMERR", kind));
                     } else {
                         x.out.check_c(got == wantw, "wrong_error_for_tampered_request", &case, &format!("{}: want {} got {}", kind, wantw, got));
@@ -652,6 +673,20 @@ fn main() {
             muts.push(("two_tsigs", add_rr(&awire, &awire[tsig_at..].to_vec()), t2, Some("FormErr")));
             muts.push(("missing", ans.clone(), t2, Some("ServerUnsigned")));
             muts.push(("tsig_class", flip(&awire, tsig_at + owner + 2 + r.below(2) as usize, r.below(8) as u8), t2, Some("reject")));
+            { // the correct MAC with octets appended; a MAC below the RFC floor
+                let mut d = with_len(&reqmac); d.extend_from_slice(&ans); d.extend_from_slice(&rfc_variables(&ks, t2, fudge2, 0, &[]));
+                let full = ks.alg.hmac(x.c, &ks.secret, &d);
+                let oid = u16::from_be_bytes([ans[0], ans[1]]);
+                let nx = 1 + r.below(4) as usize; let mut m = full.clone(); m.extend_from_slice(&r.bytes(nx));
+                muts.push(("mac_extended_beyond_digest", add_rr(&ans, &rfc_tsig_rr(&ks, t2, fudge2, &m, oid, 0, &[])), t2, Some("size:FormErr")));
+                if ks.sign_len() < ks.alg.native() {
+                    let mut m = full[..ks.sign_len()].to_vec(); m.push(full[ks.sign_len()] ^ 0x5a);
+                    muts.push(("mac_extended_wrong_tail", add_rr(&ans, &rfc_tsig_rr(&ks, t2, fudge2, &m, oid, 0, &[])), t2, Some("BadSig")));
+                }
+                let floor = std::cmp::max(10, ks.alg.native() / 2);
+                muts.push(("mac_below_rfc_floor", add_rr(&ans, &rfc_tsig_rr(&ks, t2, fudge2, &full[..floor - 1], oid, 0, &[])), t2, Some("size:FormErr")));
+                if kc.min_len() > floor { muts.push(("mac_truncated_below_min", add_rr(&ans, &rfc_tsig_rr(&ks, t2, fudge2, &full[..kc.min_len() - 1], oid, 0, &[])), t2, Some("BadTrunc"))); }
+            }
             let nflip = if thorough { 40 } else { 5 };
             for _ in 0..nflip { let at = r.range(2, awire.len() as u64 - 1) as usize; muts.push(("random_bit", flip(&awire, at, r.below(8) as u8), t2, None)); }
             for (kind, w, at, want) in muts {
@@ -671,7 +706,9 @@ fn main() {
                 let in_class_ttl = w.len() == awire.len() && diffs.len() == 1 && diffs[0] >= tsig_at + owner + 2 && diffs[0] < tsig_at + owner + 8;
                 if in_class_ttl { x.out.check_c(!ok, "tsig_class_ttl_unchecked", &case, &format!("{}: TSIG RR with CLASS/TTL octet changed verifies", kind)); continue; }
                 x.out.check_c(!ok, "tampered_answer_accepted", &case, kind);
-                if let (Some(wantw), false) = (want, ok) { if wantw != "reject" { x.out.check_c(obs == format!("Err {}", wantw), "wrong_error_for_tampered_answer", &case, &format!("{}: want {} got {}", kind, wantw, obs)); } }
+                if let (Some(wantw), false) = (want, ok) { if let Some(sz) = wantw.strip_prefix("size:") {
+                    x.out.check_c(obs == format!("Err {}", sz), "mac_size_outside_rfc_range_wrong_error", &case, &format!("{}: RFC 8945 5.2.2.1 assigns FORMERR, got {}", kind, obs));
+                } else if wantw != "reject" { x.out.check_c(obs == format!("Err {}", wantw), "wrong_error_for_tampered_answer", &case, &format!("{}: want {} got {}", kind, wantw, obs)); } }
             }
         }
     }
